@@ -20,6 +20,7 @@ const FS_FAULTS: &[&str] = &[
     "file_not_dir",
     "wrong_case_ext",
     "only_side_files",
+    "stale_output",
 ];
 const RUST_LOGS: &[Option<&str>] = &[None, None, Some("error"), Some("warn"), Some("info"), Some("debug"), Some("trace")];
 const PATH_FORMS: &[&str] = &["abs", "abs", "rel", "dot_rel", "trailing_slash", "symlink"];
@@ -170,6 +171,9 @@ pub fn run(tier: &str, seed: u64, replay: Option<String>) -> i32 {
             env_jobs.push(json!({"t":"env","project":p,"tool":tool,"use_extra":extra,"fs":[],"rust_log":Value::Null,
                 "path_form":"abs","hash_seed":0,"fake_time":Value::Null,"lang":Value::Null,"thor_r":true,"thor_v":0}));
         }
+        // re-export in place: the -o / -r paths already hold an older, longer file
+        env_jobs.push(json!({"t":"env","project":p,"tool":"thor","use_extra":false,"fs":["stale_output"],"rust_log":Value::Null,
+            "path_form":"abs","hash_seed":0,"fake_time":Value::Null,"lang":Value::Null,"thor_r":true,"thor_v":0}));
     }
     let n_strict = env_jobs.len();
     let n_sample = if thorough { 6000 } else { 300 };
